@@ -109,7 +109,21 @@ func (w *World) propertyNotes(prop string) []string {
 	return nil
 }
 
-var undecidedClauses = map[string][]string{}
+var undecidedClauses = map[string][]string{
+	"C01": {"real interleavings of the reader and writer goroutines (only per-call contracts and footprints are proved)", "end-to-end induction over frames (decode_encode / decode_split lemmas) is argued from the per-call contracts, not discharged as a separate lemma", "IAT sleeps; behaviour of the underlying net.Conn beyond its spec"},
+	"C02": {"cryptographic unforgeability of HMAC and ntor AUTH (assumption)", "many clients handshaking concurrently (sharing only the replay filter, C11)"},
+	"C03": {"wall-clock behaviour of deadlines in the kernel (modelled, not measured)", "indistinguishability of failure classes beyond the single closeAfterDelay funnel"},
+	"C04": {"HMAC collision freedom", "concurrent submissions (reduced to the filter's mutex, C11)"},
+	"C05": {"AEAD security of secretbox (assumption)"},
+	"C06": {"the primitives themselves (x/crypto, siphash, crypto/hmac are trusted to be what their names say); no second implementation is in the loop", "Elligator 2 (C07)"},
+	"C08": {"X25519 on low-order / non-canonical points (trusted x/crypto)", "HMAC collision resistance behind 'changes both outputs'"},
+	"C09": {"actual inter-arrival times (sleeps are no-ops in the model)", "equality of client and server tables needs both processes to run with the same -obfs4-distBias flag (configuration assumption)"},
+	"C10": {"memory held inside dependencies (bufio, http.Transport), goroutine liveness, stack depth", "network-facing functions not listed under functions_under_contract in this evidence are not covered yet"},
+	"C12": {"exactness of the floating-point alias tables (floating point is uninterpreted)", "table generation loops (genValues/genWeights/genTables) are not yet under contract"},
+	"C15": {"behaviour against an actual conforming server (none in the tree)", "stream / ticket / packet clauses are not yet under contract"},
+	"C19": {"relay prefix / drain-before-close under racing io.Copy goroutines"},
+	"C20": {"cleanliness of stdlib error fields (assumption)"},
+}
 
 func tryReplay(w *World, prop string, a *aggOblig, model map[string]string) map[string]any {
 	return replayFor(w, prop, a, model)
